@@ -20,6 +20,21 @@ def harnesses():
                 intdiv = on in ("div", "rem") and ka == 0 and kb in (0, 2)
                 symd = f"left any {an}, right any {bn} (full width)"
                 # C09: value model
+                if on in ("div", "rem"):
+                    # symbolic left operand, concrete right operand per stamp (see ops.rs arith_cr)
+                    consts = {"int": [("3", 3.0), ("m7", -7.0)], "float": [("3", 3.0), ("half", 0.5), ("m2", -2.0)], "byte": [("7", 7.0)]}[bn]
+                    for ci, (cn, cv) in enumerate(consts):
+                        slow = (on == "rem" and is_float)
+                        out.append(H(f"c09_{on}_{an}_{bn}_by_{cn}", "C09", "quick" if (ci == 0 and not slow) else "thorough",
+                                     f"arith_cr({op}, {ka}, {kb}, {cv!r})", f"arith_{on}_{an}_{bn}",
+                                     f"left any {an} (full width), right = {cv} as {bn} (concrete)", timeout=600))
+                    # the fully symbolic VALUE harness never finished for / and % (any kinds): not generated;
+                    # engine M decides the fully symbolic case for everything but float %.
+                    # Crash freedom (C08) stays fully symbolic:
+                    out.append(H(f"c08_{on}_{an}_{bn}", "C08", "thorough" if heavy else "quick",
+                                 f"arith({op}, {ka}, {kb}, false)", f"arith_{on}_{an}_{bn}", symd,
+                                 timeout=900 if heavy else 300, required=not heavy))
+                    continue
                 out.append(H(f"c09_{on}_{an}_{bn}", "C09", "thorough" if ((is_float and on != "add") or intdiv) else "quick",
                              f"arith({op}, {ka}, {kb}, true)", f"arith_{on}_{an}_{bn}", symd,
                              timeout=900 if (heavy or intdiv) else 300, required=not (heavy or intdiv)))
